@@ -398,6 +398,30 @@ func c08Scenarios(tier string) []*world.Scenario {
 			}
 		}
 	}
+	// another client died inside a request (its prefix parked in the inbound buffer) before this client's stream arrives
+	{
+		ab := world.Cmd("set", keysA[0], strings.Repeat("A", 34))
+		for _, st := range c08Streams(tier)[:4] {
+			n := 0
+			for _, r := range st.reqs {
+				n += len(r.Bytes)
+			}
+			for _, plen := range []int{1, 9, len(ab) - 30, len(ab) - 1} {
+				for _, rst := range []bool{false, true} {
+					for c1 := 1; c1 < n; c1++ {
+						if !thorough && c1%3 != 1 {
+							continue
+						}
+						sc := AbortedNeighbour(ab[:plen], rst, st.reqs, []int{c1}, 32)
+						sc.Name = fmt.Sprintf("C08/aborted-neighbour/%s/prefix%d/rst=%v/cut%d", st.name, plen, rst, c1)
+						reqs := st.reqs
+						sc.Check = func(w *world.World) []world.Violation { return c08Oracle(w, reqs) }
+						out = append(out, sc)
+					}
+				}
+			}
+		}
+	}
 	// small requests whose pipeline exceeds the size limit: each is within the limit on its own
 	small := SetReq(keysA[0], "0123456789012345")
 	st := c08stream{"3-small-sets-under-limit64", []Req{small, SetReq(keysB[0], "0123456789012345"), SetReq(keysC[0], "0123456789012345")}}
@@ -417,7 +441,7 @@ func init() {
 		Scenarios: c06Scenarios, BudgetQuick: 100, BudgetThorough: 1500,
 		Assumptions: []string{"pool keys are brace-free or carry well-formed hash tags (slot function itself is C05's business)"}})
 	register(&Check{ID: "C08", Level: "model_checking",
-		Rule:      "request streams (1-3 requests: GET, SET with CRLF/binary/empty/70-byte arguments, split MGET/DEL/MSET, PING; thorough adds EVAL and a 400-byte SET) x read-buffer capacities {8, 32, 65536} x segmentations {unsegmented, byte-at-a-time, EVERY single cut, EVERY pair of cuts for streams up to 60 (thorough 100) bytes}; plus a pipeline of three small SETs whose total exceeds a 64-byte size limit while each request is within it; oracle: same requests recognised (per-node command multiset), same replies in order, connection never closed, never an error caused by a cut; distinct = observable outcomes",
+		Rule:      "request streams (1-3 requests: GET, SET with CRLF/binary/empty/70-byte arguments, split MGET/DEL/MSET, PING; thorough adds EVAL and a 400-byte SET) x read-buffer capacities {8, 32, 65536} x segmentations {unsegmented, byte-at-a-time, EVERY single cut, EVERY pair of cuts for streams up to 60 (thorough 100) bytes}; plus a pipeline of three small SETs whose total exceeds a 64-byte size limit while each request is within it; plus the first four streams under single cuts after ANOTHER client died (FIN/RST) with a proper prefix of a request parked in its inbound buffer; oracle: same requests recognised (per-node command multiset), same replies in order, connection never closed, never an error caused by a cut; distinct = observable outcomes",
 		Scenarios: c08Scenarios, BudgetQuick: 100, BudgetThorough: 1500,
 		Assumptions: []string{"default (synchronous) schedule per segmentation: C08 varies the cuts, C01/C09 vary the interleavings", "PING is only placed where no forwarded request precedes it, so the ordering property C01 is not re-judged here"}})
 }
